@@ -80,6 +80,8 @@ pub enum Cond {
     CanRecv(usize),
     Joinable(usize),
     AllOthersDone,
+    /// Blocked in a system call that does not return (stalled input).
+    Never,
 }
 
 #[derive(Clone, Copy, Debug, PartialEq, Eq)]
@@ -95,6 +97,7 @@ pub enum OpKind {
     Exit = 7,
     Yield = 8,
     Drain = 9,
+    Stall = 10,
 }
 
 #[derive(Clone, Debug, Default)]
@@ -344,6 +347,7 @@ impl Rt {
                 m.len.load(Ordering::SeqCst) > 0 || m.senders.load(Ordering::SeqCst) == 0
             }
             Cond::Joinable(t) => self.threads.get(t).map_or(true, |t| t.state == ThState::Finished),
+            Cond::Never => false,
             Cond::AllOthersDone => self
                 .threads
                 .iter()
@@ -442,6 +446,20 @@ impl Rt {
         pick
     }
 
+    /// Everybody waits and one thread waits for input that does not come: this is when the signal arrives (the
+    /// store its handler performs). Nobody is woken by a store - what follows is the deadlock report.
+    fn stop_event_on_stalled_input(&mut self) {
+        let stalled = self.threads.iter().any(|t| t.state != ThState::Finished && t.pending == Cond::Never);
+        if stalled && self.out.stop_injected_at.is_none() {
+            if let Some(f) = &self.stop_flag {
+                f.store(true, Ordering::SeqCst);
+                self.out.stop_injected_at = Some(self.out.steps);
+                crate::io::mark_stop();
+                *self.out.probes.entry("stop_event_while_input_stalled").or_insert(0) += 1;
+            }
+        }
+    }
+
     fn abort(&mut self) {
         self.aborting = true;
         self.out.aborted = true;
@@ -521,6 +539,7 @@ pub(crate) fn decision_point(me: usize, cond: Cond, op: OpKind, obj: usize) {
         rt.out.max_runnable = runnable.len();
     }
     if runnable.is_empty() {
+        rt.stop_event_on_stalled_input();
         if cond == Cond::AllOthersDone && op == OpKind::Drain {
             rt.out.leaked_threads = rt
                 .threads
@@ -563,6 +582,52 @@ pub(crate) fn decision_point(me: usize, cond: Cond, op: OpKind, obj: usize) {
         if aborting {
             abort_unwind();
         }
+    }
+}
+
+/// The calling managed thread is inside a system call that never returns (its input has stalled): it gives the
+/// baton away for good. Never returns; the OS thread stays parked until the simulated process exits.
+static ANY_STALLED: std::sync::atomic::AtomicBool = std::sync::atomic::AtomicBool::new(false);
+
+/// A thread of this process is parked for good inside a stalled read (it still holds std's stdin lock).
+pub fn any_thread_stalled() -> bool {
+    ANY_STALLED.load(Ordering::SeqCst)
+}
+
+pub fn stall_forever() -> ! {
+    ANY_STALLED.store(true, Ordering::SeqCst);
+    if let Ctx::Managed(me) = ctx() {
+        let mut guard = lock_rt();
+        if let Some(rt) = guard.as_mut() {
+            if rt.active && !rt.aborting {
+                rt.out.steps += 1;
+                PROGRESS.fetch_add(1, Ordering::Relaxed);
+                let step = rt.out.steps;
+                *rt.out.probes.entry("input_stalled").or_insert(0) += 1;
+                rt.threads[me].pending = Cond::Never;
+                rt.threads[me].state = ThState::Ready;
+                let runnable = rt.runnable();
+                if runnable.is_empty() {
+                    rt.stop_event_on_stalled_input();
+                    rt.out.deadlock = Some(rt.describe_blocked());
+                    rt.abort();
+                } else {
+                    let next = rt.choose(me, &runnable);
+                    rt.out.trace_hash = trace_mix(rt.out.trace_hash, step, next, OpKind::Stall, 0);
+                    rt.current = next;
+                    rt.threads[next].state = ThState::Running;
+                    rt.out.switches += 1;
+                    let cv_next = rt.threads[next].cv.clone();
+                    cv_next.notify_all();
+                }
+            }
+        }
+        drop(guard);
+        // this OS thread never ends on its own: it no longer counts among the threads the run waits for
+        LIVE_OS_THREADS.fetch_sub(1, Ordering::SeqCst);
+    }
+    loop {
+        std::thread::park();
     }
 }
 
